@@ -1,5 +1,6 @@
 #!/bin/sh
 # tools/seed_regression.sh [parallel] : every seeded change against the check of the property it breaks (committed harness, scratch copies)
 PAR="${1:-4}"
-ls -d /verif/seeded/*/ | while read d; do id=$(basename "$d"); p=${id%%-*}; echo "$id $p"; done > /tmp/seed_regr.todo
+# seeds marked obsolete in meta.json (neutralised by a later fix: commit) and seeded/rejected are skipped
+ls -d /verif/seeded/C*/ | while read d; do id=$(basename "$d"); p=${id%%-*}; grep -q '"obsolete"' "$d/meta.json" 2>/dev/null && continue; echo "$id $p"; done > /tmp/seed_regr.todo
 cat /tmp/seed_regr.todo | xargs -P "$PAR" -L 1 sh -c 'VERIF_AS_LIMIT_KB=30000000 /verif/tools/mutant_scratch.sh "sr_$0" "/verif/seeded/$0/patch.diff" "$1" 2>&1 | grep MATRIX'
